@@ -44,6 +44,25 @@ func genC11(t *rapid.T, _ *evid.Rec) caseC11 {
 		i := rapid.IntRange(0, len(c.Doc.Records)-2).Draw(t, "dupI")
 		c.Doc.Records[i+1].Date.Y, c.Doc.Records[i+1].Date.M, c.Doc.Records[i+1].Date.D = c.Doc.Records[i].Date.Y, c.Doc.Records[i].Date.M, c.Doc.Records[i].Date.D
 	}
+	if rapid.IntRange(0, 5).Draw(t, "stylelessTail") == 0 && len(c.Doc.Records) > 0 {
+		// a long run of records without entries after the styled ones: they exhibit no indentation,
+		// clock convention, dash spacing or placeholder, so the styles must still come from the
+		// records before them, however far back those are
+		last := c.Doc.Records[0].Date.Days()
+		for _, r := range c.Doc.Records {
+			if r.Date.Days() > last {
+				last = r.Date.Days()
+			}
+		}
+		slash := c.Doc.Records[len(c.Doc.Records)-1].Date.Slash
+		for i, n := 0, rapid.IntRange(12, 20).Draw(t, "tailLen"); i < n && last+1+i <= model.MaxDay; i++ {
+			r := model.Record{Date: model.DateOfDays(last+1+i, slash)}
+			if rapid.IntRange(0, 3).Draw(t, "tailSummary") == 0 {
+				r.Summary = model.Texts("day off")
+			}
+			c.Doc.Records = append(c.Doc.Records, r)
+		}
+	}
 	c.Layout = gen.Layout(t, len(c.Doc.Records))
 	// styles per record: make per-record indentation and endings likely
 	if rapid.Bool().Draw(t, "perRecordStyle") {
